@@ -21,6 +21,7 @@ bool g_failed_once = false;
 std::set<uint64_t> g_distinct, g_distinct_nt;
 std::map<std::string, uint64_t> g_tags;
 std::map<std::string, uint64_t> g_known;
+std::map<std::string, long long> g_counters;
 std::map<std::string, std::string> g_known_example;
 std::vector<std::string> g_samples;   // first two non-trivial cases
 std::string g_last_nt;                // last non-trivial case
@@ -49,6 +50,9 @@ void write_stats(const char * state) {
     mj::Value tags = mj::Value::object();
     for (auto & t : g_tags) tags.set(t.first, (long long) t.second);
     v.set("tags", tags);
+    mj::Value cnts = mj::Value::object();
+    for (auto & t : g_counters) cnts.set(t.first, (long long) t.second);
+    v.set("counters", cnts);
     mj::Value known = mj::Value::object();
     for (auto & t : g_known) known.set(t.first, (long long) t.second);
     v.set("known", known);
@@ -98,6 +102,7 @@ CaseOutcome run_one(const std::string & js, bool count) {
             }
         }
         for (auto & t : oc.tags) ++g_tags[t];
+        for (auto & cn : oc.counters) g_counters[cn.first] += cn.second;
         if (!oc.known.empty()) {
             ++g_known[oc.known];
             if (!g_known_example.count(oc.known) || js.size() < g_known_example[oc.known].size()) g_known_example[oc.known] = js;
